@@ -53,6 +53,8 @@ let () =
     let c = A.to_crs sc a in
     dims a ^ " " ^ show_crs c ^ " " ^ show_crs c ^ " " ^ spmv1 c x in
   reg "tuple" tuple_like; reg "tuple_range" tuple_like;
+  (* tuple of non-contiguous random-access ranges (strided view, std::deque): the same view; the first token names the container *)
+  reg "tuple_nc" (fun t -> let _kind = t_s t in tuple_like t);
   let zc t =
     let it = itype_of (t_s t) in let m = t_crs t in let x = t_vec t in
     let a = A.zero_copy_adapter sc it (nrows m) m.Crs.ncols (A.flat_ptr sc m) (A.flat_col sc m) (A.flat_val sc m) in
